@@ -52,7 +52,13 @@ type PadTagMsg struct {
 	Tag string
 }
 
+// EmptyMsg is a registered message without fields: its wire body is empty.
+type EmptyMsg struct{}
+
 func init() {
+	vivid.RegisterCustomMessage[*EmptyMsg]("verifEmptyMsg",
+		func(message any, r *messages.Reader, codec messages.Codec) error { return nil },
+		func(message any, w *messages.Writer, codec messages.Codec) error { return nil })
 	vivid.RegisterCustomMessage[*PadTagMsg]("verifPadTagMsg",
 		func(message any, r *messages.Reader, codec messages.Codec) error {
 			m := message.(*PadTagMsg)
@@ -152,6 +158,10 @@ func Maps() []map[string]string {
 }
 
 func NestedMessages() []any {
+	return append(nestedMessages(), &EmptyMsg{})
+}
+
+func nestedMessages() []any {
 	return []any{new(vivid.OnLaunch), &CustomMsg{N: 7, T: "t"}, &UserMsg{A: -5, S: "user|payload"}, &vivid.PipeResult{Id: "inner", Message: new(vivid.OnLaunch), Error: vivid.ErrorNotFound}, &messages.PingMessage{Time: time.Unix(5, 5)}}
 }
 
@@ -284,6 +294,7 @@ func Corpus() map[string][]any {
 	c["clusterSingletonForwardedMessage"] = append(c["clusterSingletonForwardedMessage"], cluster.VerifSingletonForwarded(nil, new(vivid.OnLaunch), "1.2.3.4:5", "/p"))
 	c["verifCustomMsg"] = []any{&CustomMsg{}, &CustomMsg{N: math.MinInt32, T: Strings[3]}}
 	c["verifBytesMsg"] = []any{&BytesMsg{}, &BytesMsg{ID: "b", B: []byte{0, 1, 2, 255}}, &BytesMsg{ID: Strings[3], B: bytes.Repeat([]byte{7}, 5000)}}
+	c["verifEmptyMsg"] = []any{&EmptyMsg{}}
 	c["verifPadTagMsg"] = []any{&PadTagMsg{}, &PadTagMsg{Pad: []byte{1, 2}, Tag: "t"}, &PadTagMsg{Pad: bytes.Repeat([]byte{3}, 70000), Tag: strings.Repeat("T", 255)}}
 	c["verifShortTagMsg"] = []any{&ShortTagMsg{}, &ShortTagMsg{Tag: "t"}, &ShortTagMsg{Tag: strings.Repeat("T", 255)}}
 	return c
